@@ -87,6 +87,7 @@ Replies ==
     Rpl("tag-request-11", <<MsgRequestIdentities>>),
     Rpl("empty", <<>>),
     [name |-> "toolarge", hdr |-> EncLen(MaxMsg + 1), body |-> <<MsgSuccess>>, pad |-> 0],
+    [name |-> "toolarge-complete", hdr |-> EncLen(MaxMsg + 1), body |-> <<MsgSuccess>>, pad |-> MaxMsg],   \* every declared octet is there
     [name |-> "huge", hdr |-> <<255, 255, 255, 255>>, body |-> <<MsgSuccess>>, pad |-> 0],
     [name |-> "exactmax", hdr |-> EncLen(MaxMsg), body |-> <<MsgSuccess>>, pad |-> MaxMsg - 1],
     [name |-> "cut-frame", hdr |-> EncLen(10), body |-> <<MsgSuccess, 0, 0>>, pad |-> 0],
@@ -126,7 +127,7 @@ FrameShape == case.kind = "req" =>
 \* W1 at the level of one reply: a truncated identities answer is never reported as success, and no call of one
 \* kind accepts the reply of another kind as success
 NoFalseSuccess == case.kind = "rep" =>
-  /\ case.reply \in {"toolarge", "huge", "cut-frame", "cut-header", "eof", "empty"} => case.out.t # "ok"
+  /\ case.reply \in {"toolarge", "toolarge-complete", "huge", "cut-frame", "cut-header", "eof", "empty"} => case.out.t # "ok"
   /\ (case.callkind = "list" /\ case.reply \in {"ids-count3-have2", "ids-count1-have0", "ids-count2-cut", "ids-count2-cutblob",
                                                 "ids-blob-not-a-blob", "ids-blob-empty", "ids-count-too-many", "ids-count-huge",
                                                 "ids-count-max-allowed", "ids-short", "ids-bare"}) => case.out.t # "ok"
